@@ -53,6 +53,10 @@ claim("C09", "registry agreement between filter call-site subject types and the 
       "Decides C09.1-C09.6: every subject handed to the ACL filter has a case (43 call sites); every RPC with a filterable reply filters it (36 methods, 3 listed up-front-authorised ones); each of 23 per-type filters asks the questions frozen for its element type on a name field of the element (F10 class); 11 in-place splices step the index back and set the removed flag; the filtered flag is never overwritten in a loop (F4 class); identities are used only below the not-expired edge; anonymous masking is in place. Does not decide that nothing readable is dropped for nested structures.",
       "DESIGN.md section 3 C09")
 
+claim("C13", "finite-domain abstract interpretation of both precedence computations (16 + 4 cells, with an abstract heap for the stored field) and comparison of the two tables; field-identity check of the sorter's comparisons; must-pass-through of the precedence sort before an assembled list is returned (escalated to callers); loop-exit rule in the decision; dominance rule on the precedence recomputation",
+      "Decides C13.1 (both precedence functions are strictly increasing destination-first, source-second over their whole domain and agree), C13.2 (the sorter compares precedence descending and one field per tie-break), C13.3 (7 list-assembling functions: sorted here or by every caller), C13.4 (first match decides), C13.5 (precedence recomputed unconditionally on normalisation and on legacy writes). Wildcard expansion of IntentionMatch for all pairs is not decided.",
+      "DESIGN.md section 3 C13")
+
 NA_REASON = {}
 
 checks = []
